@@ -2425,6 +2425,7 @@ class SymQ:
     __array_ufunc__ = None
     NONZERO = []      # denominators introduced by divisions (terms assumed/proved non-zero by the harness)
     ABS_SEEN = []     # arguments of abs() comparisons that were resolved by assumption
+    ABS_THRESHOLDS = []   # the constants those absolute values were compared with
 
     def __init__(self, n, d=None):
         self.n = n
@@ -2514,10 +2515,31 @@ class SymQ:
     def term(self):
         return self.n / self.d if _const_value(self.d) != 1 else self.n
 
-    def _nocmp(self, *a):
-        raise Unsupported('ordering comparison of rational-function values')
+    def _sign_diff(self, o):
+        """term with the sign of (self - o): (n1 d2 - n2 d1) * (d1 d2)   (valid where the denominators are non-zero)"""
+        o = SymQ.of(o)
+        return _som((self.n * o.d - o.n * self.d) * (self.d * o.d))
 
-    __lt__ = __le__ = __gt__ = __ge__ = _nocmp
+    def __lt__(self, o):
+        if isinstance(o, np.ndarray):
+            return NotImplemented
+        return SymBool(self._sign_diff(o) < 0)
+
+    def __le__(self, o):
+        if isinstance(o, np.ndarray):
+            return NotImplemented
+        return SymBool(self._sign_diff(o) <= 0)
+
+    def __gt__(self, o):
+        if isinstance(o, np.ndarray):
+            return NotImplemented
+        return SymBool(self._sign_diff(o) > 0)
+
+    def __ge__(self, o):
+        if isinstance(o, np.ndarray):
+            return NotImplemented
+        return SymBool(self._sign_diff(o) >= 0)
+
     __hash__ = None
 
     def __float__(self):
@@ -2547,20 +2569,40 @@ class _AbsQ:
     def __init__(self, q):
         self.q = q
 
-    def __le__(self, o):
+    def _sq_diff(self, o):
+        # |a| ? |b|  <=>  a^2 ? b^2 : (n1 d2)^2 - (n2 d1)^2
+        a, b = self.q, o.q
+        return _som((a.n * b.d) * (a.n * b.d) - (b.n * a.d) * (b.n * a.d))
+
+    def _note(self, o):
         SymQ.ABS_SEEN.append(self.q)
+        try:
+            SymQ.ABS_THRESHOLDS.append(float(o))
+        except Exception:  # noqa
+            SymQ.ABS_THRESHOLDS.append(float('inf'))
+
+    def __le__(self, o):
+        if isinstance(o, _AbsQ):
+            return SymBool(self._sq_diff(o) <= 0)
+        self._note(o)
         return False
 
     def __lt__(self, o):
-        SymQ.ABS_SEEN.append(self.q)
+        if isinstance(o, _AbsQ):
+            return SymBool(self._sq_diff(o) < 0)
+        self._note(o)
         return False
 
     def __gt__(self, o):
-        SymQ.ABS_SEEN.append(self.q)
+        if isinstance(o, _AbsQ):
+            return SymBool(self._sq_diff(o) > 0)
+        self._note(o)
         return True
 
     def __ge__(self, o):
-        SymQ.ABS_SEEN.append(self.q)
+        if isinstance(o, _AbsQ):
+            return SymBool(self._sq_diff(o) >= 0)
+        self._note(o)
         return True
 
 
